@@ -4,6 +4,9 @@
 #include <string.h>
 
 size_t c15_absorb, c15_gran, c15_thresh;
+/* added to the total_in counters once something has been consumed (`wrap big`): with 2^32 - 1 libbz2's total_in_lo32 is 0 and
+   total_in_hi32 is 1 after the first byte, as in a member of more than 4 GiB */
+unsigned long long c15_total_bias;
 
 typedef struct {
 	unsigned char *q; size_t qn, qcap;
@@ -121,7 +124,7 @@ static int bz_call(bz_stream *s, int full)
 	eng_t *e = s->state;
 	int r = eng_call(e, (unsigned char *)s->next_in, s->avail_in, (unsigned char *)s->next_out, s->avail_out, full, &c, &p);
 	s->next_in += c; s->avail_in -= c; s->next_out += p; s->avail_out -= p;
-	s->total_in_lo32 = (unsigned int)e->total; s->total_in_hi32 = (unsigned int)((uint64_t)e->total >> 32);
+	{ uint64_t t = e->total ? (uint64_t)e->total + c15_total_bias : 0; s->total_in_lo32 = (unsigned int)t; s->total_in_hi32 = (unsigned int)(t >> 32); }
 	/* libbz2 has no "no progress" code in its streaming interface: BZ_OK / BZ_FINISH_OK */
 	return r == R_OK ? (full ? BZ_FINISH_OK : BZ_OK) : r == R_END ? BZ_STREAM_END : r == R_STUCK ? (full ? BZ_FINISH_OK : BZ_OK) : BZ_DATA_ERROR;
 }
